@@ -12,7 +12,7 @@ def run(chk):
                 'stage list-trash-dir: trash-list with one or several --trash-dir options over dated seed states; stage history-long-paths: the sandbox lies under 7 nested 242-byte non-ASCII directories. non-trivial = a step changed the state; distinct by command sequence x names')
     chk.assumptions += common.ASSUME
     common.mc(chk, invariants=['ListIsBag'])
-    common.behaviours(chk, 'history', 75 if quick else 1200, 10 if quick else 14)
+    common.behaviours(chk, 'history', 75 if quick else 400, 10 if quick else 12)
     # --trash-dir given once or several times: exactly the entries of those directories
     common.gen_tt(chk, 'list-trash-dir', 'Init_Dates', 'Next_ListTd', 10, 400,
                   strat=lambda g: (g['lab']['td'], len(set(i['t'] for i in g['pre']['items'])), bool(g['pre']['strays'])), per_stratum=20)
